@@ -203,7 +203,19 @@ func (h *Hist) setLoad(gi int, pct int, jitter int) {
 			m += wantMem % int64(npods)
 		}
 		h.podSeq++
-		p := &WPod{Name: fmt.Sprintf("p%d", h.podSeq), NS: "ns", Phase: "Running", Annotations: map[string]string{}}
+		name := fmt.Sprintf("p%d", h.podSeq)
+		if h.r.chance(35) {
+			// names from a small pool: a pod deleted from one group may come back, same namespace/name, selecting another
+			cand := fmt.Sprintf("r%d", h.r.intn(6))
+			used := false
+			for _, q := range h.pods {
+				used = used || q.Name == cand
+			}
+			if !used {
+				name = cand
+			}
+		}
+		p := &WPod{Name: name, NS: "ns", Phase: "Running", Annotations: map[string]string{}}
 		if o.Name != "default" {
 			if h.r.chance(80) {
 				p.NodeSelector = map[string]string{"grp": o.LabelValue}
@@ -508,6 +520,10 @@ func (h *Hist) randomEvent() string {
 // runHistory plays one random history of `scans` scans. Returns false if it had to be abandoned.
 func (h *Hist) runHistory(scans int) (bool, string) {
 	h.genConfigs()
+	h.twinT = h.r.intn(len(h.cfgs))
+	if h.r.chance(50) {
+		h.twinT = len(h.cfgs) - 1
+	}
 	for gi := range h.cfgs {
 		p, j := h.pctChoice(gi)
 		h.setLoad(gi, p, j)
